@@ -64,6 +64,53 @@ def grad_structure(task):
     return dict(task=task, notes=notes)
 
 
+def restore_scenario(task):
+    """every backward segment [ts[i] -> ts[i-1]] starts from exactly the forward output ys[i] (identical DAG nodes) and with
+    the cotangent accumulated so far; observed at the nested _SdeintAdjointMethod.apply calls of the real backward pass,
+    generic NON-linear SDE, loss on a subset of the output times"""
+    import torchsde
+    import torchsde._core.adjoint as adj_mod
+    from torchsde._core.adjoint_sde import AdjointSDE
+    st, method, adj_method, nt, loss_mode, ts = task
+    mk = sdes.Maker(symbolic=True, seed=37)
+    mm = e1.noise_dim(nt, 2, 2)
+    sde = sdes.PolySDE(mk, st, nt, d=2, m=mm, degt=1, degy=2, params_grad=True)
+    bm = sdes.KeyedBM(mk, 1, mm, levy=sdes.levy_for(method))
+    y0 = mk('y0', (1, 2), requires_grad=True)
+    tst = torch.tensor(ts, dtype=torch.float64)
+    ys = torchsde.sdeint_adjoint(sde, y0, tst, bm=bm, method=method, adjoint_method=adj_method, dt=0.125)
+    sel = {'all': ys, 'middle': ys[1:2], 'last': ys[-1:], 'first-two': ys[:2]}[loss_mode]
+    loss = e1.weighted_loss(mk, sel)
+    calls = []
+    cls = adj_mod._SdeintAdjointMethod
+    real_apply = cls.apply
+
+    def rec_apply(sde_, ts_, *rest):
+        if isinstance(sde_, AdjointSDE):
+            calls.append((ts_, rest[11]))        # (segment times, augmented state handed in)
+        return real_apply(sde_, ts_, *rest)
+    cls.apply = staticmethod(rec_apply)
+    try:
+        torch.autograd.grad(loss, [y0] + list(sde.parameters()), allow_unused=True)
+    finally:
+        cls.apply = real_apply
+    notes = []
+    n = ys.shape[0]
+    want_idx = list(range(n - 1, 0, -1))
+    if len(calls) != len(want_idx):
+        notes.append(f'{len(calls)} backward segments for {n} output times')
+    for (seg_ts, aug), i in zip(calls, want_idx):
+        t_start = -float(seg_ts[0]); t_end = -float(seg_ts[1])
+        if abs(t_start - ts[i]) > 1e-12 or abs(t_end - ts[i - 1]) > 1e-12:
+            notes.append(f'segment runs from {t_start} to {t_end}, expected {ts[i]} -> {ts[i - 1]}')
+            continue
+        ypart = list(aug.sym.reshape(-1)[:2]) if isinstance(aug, SymT) else None
+        want = list(ys.sym[i].reshape(-1))
+        if ypart is None or any(a is not b for a, b in zip(ypart, want)):
+            notes.append(f'backward segment starting at t={ts[i]} does not start from the forward output ys[{i}]')
+    return dict(task=task, notes=notes, segments=len(calls))
+
+
 def exact_scenario(task):
     """autonomous affine drift, additive constant noise, Euler / Euler adjoint on the same grid: the adjoint gradient wrt
     y0, the constant drift term and the diffusion coefficients equals backprop exactly (rational-function identity)"""
@@ -135,6 +182,18 @@ def run(ctx):
             ctx.violation(f"{t[0]},{t[1]},{t[3]}|grad-structure", '; '.join(res['notes']), replay=dict(kind='structure', task=list(t)))
         else:
             ctx.ok(name)
+    T4 = [('ito', 'euler', None, 'diagonal', 'middle', [0.0, 0.25, 0.5]), ('ito', 'srk', None, 'additive', 'all', [0.0, 0.25, 0.5]),
+          ('stratonovich', 'midpoint', None, 'general', 'middle', [0.125, 0.25, 0.625]), ('stratonovich', 'heun', 'euler_heun', 'scalar', 'first-two', [0.0, 0.125, 0.25, 0.5]),
+          ('ito', 'euler', None, 'general', 'last', [0.0, 0.25, 0.5])]
+    for t, (st_, res) in zip(T4, pmap(restore_scenario, T4)):
+        name = f"backward segments start from the stored forward outputs {t}"
+        if st_ != 'ok':
+            ctx.inconc(name, str(res)[:500]); continue
+        ctx.paths += 1
+        if res['notes']:
+            ctx.violation(f"{t[0]},{t[1]},{t[3]},{t[4]}|segment-state", '; '.join(res['notes'][:2]), replay=dict(kind='restore', task=list(t)))
+        else:
+            ctx.ok(name, f"{res['segments']} segments")
     T3 = [(1, 1, [0.0, 0.1, 0.2], 0.1, 'all'), (2, 2, [0.0, 0.1, 0.2], 0.1, 'all'), (1, 2, [0.0, 0.1, 0.2], 0.1, 'middle'), (1, 1, [0.125, 0.25, 0.5], 0.125, 'last')] + \
          ([] if ctx.tier == 'quick' else [(2, 2, [0.0, 0.1, 0.2, 0.3], 0.1, 'all'), (1, 2, [0.0, 0.2, 0.3], 0.1, 'middle'), (2, 2, [0.0, 0.1, 0.3, 0.4], 0.1, 'middle')])
     tw = 0
@@ -180,9 +239,37 @@ def replay(data):
         err = float((out[0] - out[1]).abs().max())
         print('replay C09 exact case: max abs diff', err)
         return err > 1e-10
+    if r['kind'] == 'restore':
+        return replay_restore(r['task'])
     res = grad_structure_plain(r['task'])
     print('replay C09 structure:', res)
     return bool(res)
+
+
+def replay_restore(task):
+    """float64: the adjoint gradient for a loss on a subset of output times must approach the backprop gradient as dt -> 0"""
+    import torchsde
+    st, method, adj_method, nt, loss_mode, ts = task
+    mm = e1.noise_dim(nt, 2, 2)
+    errs = []
+    for dt in (2.0 ** -5, 2.0 ** -8):
+        out = []
+        for adjoint in (True, False):
+            mk = sdes.Maker(symbolic=False, seed=37)
+            sde = sdes.PolySDE(mk, st, nt, d=2, m=mm, degt=1, degy=2, params_grad=True)
+            for p_ in sde.parameters():
+                p_.data.mul_(0.5)
+            bm = torchsde.BrownianInterval(ts[0], ts[-1], size=(1, mm), dtype=torch.float64, entropy=77, levy_area_approximation=sdes.levy_for(method))
+            y0 = torch.tensor([[0.3, 0.4]], dtype=torch.float64, requires_grad=True)
+            fn = torchsde.sdeint_adjoint if adjoint else torchsde.sdeint
+            kw = dict(adjoint_method=adj_method) if adjoint else {}
+            ys = fn(sde, y0, torch.tensor(ts, dtype=torch.float64), bm=bm, method=method, dt=dt, **kw)
+            sel = {'all': ys, 'middle': ys[1:2], 'last': ys[-1:], 'first-two': ys[:2]}[loss_mode]
+            g = torch.autograd.grad(sel.sum(), [y0] + list(sde.parameters()), allow_unused=True)
+            out.append(torch.cat([x.reshape(-1) for x in g if x is not None]))
+        errs.append(float((out[0] - out[1]).norm() / out[1].norm()))
+    print('replay C09 restore: relative |adjoint - backprop| at dt=2^-5, 2^-8:', errs)
+    return errs[1] > 0.5 * errs[0] and errs[1] > 1e-2
 
 
 def grad_structure_plain(task):
